@@ -554,13 +554,28 @@ def r_wrap_dispatch(e, R):
     ok = False
     if tests:
         t = tests[0]
-        tr = [n for n in g.nodes if n.kind == "stmt" and isinstance(n.ast, ast.Return) and g.on_branch(n, t, "T")]
-        fr = [n for n in g.nodes if n.kind == "stmt" and isinstance(n.ast, ast.Return) and not g.on_branch(n, t, "T")]
+        # the class constructed on each branch: `return C(...)` on the branch, or `v = C` on the branch with `return v(...)` after the join
+        sel_vars = {n.ast.targets[0].id for n in g.nodes if n.kind == "stmt" and isinstance(n.ast, ast.Assign) and isinstance(n.ast.targets[0], ast.Name)
+                    and any(v[0] == "class" for v in e.pt.ev(disp, n.ast.value)) and (g.on_branch(n, t, "T") or g.on_branch(n, t, "F"))}
 
-        def cls_of(n):
-            return {v[1] for v in e.pt.ev(disp, n.ast.value.func) if v[0] == "class"} if isinstance(n.ast.value, ast.Call) else set()
-        ok = bool(tr) and bool(fr) and all(cls_of(n) and all(_has_call(e, c) for c in cls_of(n)) for n in tr) \
-            and all(cls_of(n) and not any(_has_call(e, c) for c in cls_of(n)) for n in fr)
+        def classes_on(label):
+            other = "F" if label == "T" else "T"
+            out, n_sites = set(), 0
+            for n in g.nodes:
+                if n.kind != "stmt" or not g.on_branch(n, t, label) or g.on_branch(n, t, other):
+                    continue
+                if isinstance(n.ast, ast.Return) and isinstance(n.ast.value, ast.Call) and not (isinstance(n.ast.value.func, ast.Name) and n.ast.value.func.id in sel_vars):
+                    out |= {v[1] for v in e.pt.ev(disp, n.ast.value.func) if v[0] == "class"}
+                    n_sites += 1
+                if isinstance(n.ast, ast.Assign) and isinstance(n.ast.targets[0], ast.Name) and n.ast.targets[0].id in sel_vars:
+                    out |= {v[1] for v in e.pt.ev(disp, n.ast.value) if v[0] == "class"}
+                    n_sites += 1
+            return out, n_sites
+        tc, tn = classes_on("T")
+        fc, fn_ = classes_on("F")
+        built = not sel_vars or any(isinstance(n, ast.Return) and isinstance(n.value, ast.Call) and isinstance(n.value.func, ast.Name) and n.value.func.id in sel_vars
+                                    for n in func_nodes(disp))
+        ok = bool(tc) and bool(fc) and built and all(_has_call(e, c) for c in tc) and not any(_has_call(e, c) for c in fc)
     R.check(ok, "R-WRAP-DISPATCH", "instances are wrapped in the callable wrapper iff callable(obj)", disp.short, "if callable(obj): CallableObjectWrapper else CloudpickledObjectWrapper",
             "the wrapper of an object is callable although the object is not, or the reverse", e.loc(disp, disp.node))
     # (b) every construction of a wrapper goes through that dispatch, or statically has the right class
@@ -599,7 +614,7 @@ def r_wrap_dispatch(e, R):
                 cls = {v[1] for v in e.pt.ev(pub, st.value) if v[0] == "class"}
                 for cn in pg.nodes_of(st):
                     for t in pg.nodes:
-                        if t.kind == "test" and "__call__" in norm(t.ast):
+                        if t.kind == "test" and "__call__" in norm(inline_locals(e, pub, t.ast)):
                             for lab in ("T", "F"):
                                 if pg.on_branch(cn, t, lab):
                                     by_branch[lab] = cls
@@ -701,12 +716,21 @@ def r_wrap_fields(e, R):
     ga = base.methods.get("__getattr__")
     okg = False
     if ga is not None:
-        lits = set()
-        for n in func_nodes(ga):
-            if isinstance(n, ast.Compare) and isinstance(n.ops[0], ast.NotIn) and isinstance(n.comparators[0], (ast.List, ast.Tuple, ast.Set)):
-                lits = {x.value for x in n.comparators[0].elts if isinstance(x, ast.Constant)}
-        fwd = any(isinstance(n, ast.Return) and isinstance(n.value, ast.Call) and norm(n.value.func) == "getattr" and norm(n.value.args[0]) == f"{ga.params[0]}.{OBJ}"
-                  and isinstance(n.value.args[1], ast.Name) and n.value.args[1].id == ga.params[1] for n in func_nodes(ga))
+        # the membership test against the literal collection of own fields, either polarity; the forwarding return sits on its
+        # "not an own field" branch and nowhere else
+        gg = e.cfg(ga)
+        lits, fwd = set(), False
+        fwd_nodes = [n for n in gg.nodes if n.kind == "stmt" and isinstance(n.ast, ast.Return) and isinstance(n.ast.value, ast.Call) and norm(n.ast.value.func) == "getattr"
+                     and len(n.ast.value.args) == 2 and norm(n.ast.value.args[0]) == f"{ga.params[0]}.{OBJ}"
+                     and isinstance(n.ast.value.args[1], ast.Name) and n.ast.value.args[1].id == ga.params[1]]
+        for t_ in [x for x in gg.nodes if x.kind == "test"]:
+            x, flip = (t_.ast.operand, True) if isinstance(t_.ast, ast.UnaryOp) and isinstance(t_.ast.op, ast.Not) else (t_.ast, False)
+            if isinstance(x, ast.Compare) and len(x.ops) == 1 and isinstance(x.ops[0], (ast.NotIn, ast.In)) and isinstance(x.comparators[0], (ast.List, ast.Tuple, ast.Set)) \
+                    and isinstance(x.left, ast.Name) and x.left.id == ga.params[1]:
+                lits = {c.value for c in x.comparators[0].elts if isinstance(c, ast.Constant)}
+                foreign = "T" if isinstance(x.ops[0], ast.NotIn) != flip else "F"
+                own = "F" if foreign == "T" else "T"
+                fwd = bool(fwd_nodes) and all(gg.on_branch(n, t_, foreign) and not gg.on_branch(n, t_, own) for n in fwd_nodes)
         okg = lits == battrs and fwd
     R.check(okg, "R-WRAP-FIELDS", "__getattr__ forwards every name except exactly the wrapper's own fields", base.name, f"not in {sorted(battrs)}",
             "attribute forwarding excludes the wrong names: infinite recursion during unpickling, or an attribute of the wrapped object is shadowed",
